@@ -43,6 +43,41 @@ def batch(engine, prop, seeds, jobs):
         return list(ex.map(record, [(engine, prop, s) for s in seeds], chunksize=8))
 
 
+def clean(nseeds):
+    """No engine may report anything on the unchanged tree - neither its own
+    property nor a cross-hit of another one, no harness error, no spurious
+    failure of a fault-free transfer."""
+    import collections
+    from simv import runner
+    bad = 0
+    for engine, prop in ENGINES + [('world', p) for p in ('C05', 'C06', 'C08', 'C09', 'C10')] + \
+            [('legacy', 'C01'), ('legacy', 'C02')]:
+        ctx = multiprocessing.get_context('fork')
+        seeds = [7919 * i + 3 for i in range(nseeds)]
+        with cf.ProcessPoolExecutor(max_workers=16, mp_context=ctx) as ex:
+            outs = list(ex.map(_clean_one, [(engine, prop, s) for s in seeds], chunksize=16))
+        c = collections.Counter()
+        for o in outs:
+            c.update(o)
+        probs = {k: v for k, v in c.items()}
+        print('%-7s %-4s %5d seeds: %s' % (engine, prop, nseeds, probs or 'clean'))
+        bad += sum(c.values())
+    print('clean: %d problem(s)' % bad)
+    return 2 if bad else 0
+
+
+def _clean_one(args):
+    engine, prop, seed = args
+    from simv import runner
+    eng = runner.get_engine(engine)
+    r = eng.execute(eng.generate(prop, seed))
+    out = ['V:%s/%s' % (v[0], v[1]) for v in r['violations']]
+    out += ['H:%s' % h[0] for h in r['harness']]
+    if (r.get('probes') or {}).get('spurious-failure'):
+        out.append('spurious-failure')
+    return out
+
+
 def main():
     ap = argparse.ArgumentParser()
     ap.add_argument('what', nargs='?', default='determinism')
@@ -54,6 +89,8 @@ def main():
         seeds = json.loads(sys.stdin.read())
         print(json.dumps(batch(engine, prop, seeds, jobs)))
         return 0
+    if a.what == 'clean':
+        return clean(a.seeds)
     bad = 0
     total = 0
     for engine, prop in ENGINES:
